@@ -290,6 +290,13 @@ WFutexRet(t) ==
   /\ Goto(t, "w_reload")
   /\ UNCHANGED <<cfg, ms, L, H>>
 
+\* ... or spuriously (signal): allowed by the futex contract, the code must re-check and wait again
+WSpurious(t) ==
+  /\ pc[t] = "w_blocked"
+  /\ ev' = [NoEv EXCEPT !.t = t, !.k = "spur"]
+  /\ Goto(t, "w_woken")
+  /\ UNCHANGED <<cfg, ms, L, H>>
+
 \* ... or because the timeout expired (timed waits only): the timer takes the thread off the
 \* wait queue (a later wake no longer counts it), then the caller gives up waiting
 WTimerFire(t) ==
@@ -649,7 +656,7 @@ XILoad(t, M(_)) ==
 (***************************************************************************)
 Step(t, M(_)) ==
   \/ Call(t) \/ Ret(t) \/ CbBegin(t) \/ CbMid(t) \/ CbEnd(t)
-  \/ WLoad(t, M) \/ WClk0(t) \/ WCas(t, M) \/ WFutexWait(t) \/ WFutexRet(t) \/ WTimerFire(t) \/ WTimeout(t) \/ WReload(t, M) \/ WClk1(t)
+  \/ WLoad(t, M) \/ WClk0(t) \/ WCas(t, M) \/ WFutexWait(t) \/ WFutexRet(t) \/ WSpurious(t) \/ WTimerFire(t) \/ WTimeout(t) \/ WReload(t, M) \/ WClk1(t)
   \/ WSleep(t) \/ WSpinLoad(t, M)
   \/ DFaa(t, M) \/ DTLoad(t, M) \/ DTStore(t, M) \/ PPub(t, M) \/ PWake(t)
   \/ TILoad(t, M) \/ TVLoad(t, M) \/ TILoad2(t, M) \/ TCas(t, M) \/ TIStore(t, M)
